@@ -194,83 +194,113 @@ func c11BareKeys(c *Ctx) {
 	c.Floor("barekey parser keywords", len(keywords), 1, "for")
 	// bare identifier emissions whose bytes come from a non-constant string
 	n := 0
+	// the value generator and the helpers it hands a cty value to (a key emitter split off it)
+	scan := []*ssa.Function{fn}
 	for _, b := range fn.Blocks {
 		for _, ins := range b.Instrs {
-			st, ok := ins.(*ssa.Store)
-			if !ok {
-				continue
+			if call, ok := ins.(*ssa.Call); ok {
+				if h := call.Call.StaticCallee(); h != nil && h != fn && fnPkg(h) == fnPkg(fn) && len(h.Blocks) > 0 {
+					takesValue := false
+					for _, p := range h.Params {
+						if isNamed(p.Type(), ctyPath, "Value") {
+							takesValue = true
+						}
+					}
+					dup := false
+					for _, f := range scan {
+						if f == h {
+							dup = true
+						}
+					}
+					if takesValue && !dup {
+						scan = append(scan, h)
+						c.Fn(FuncName(h))
+					}
+				}
 			}
-			fa, ok := st.Addr.(*ssa.FieldAddr)
-			if !ok || !isNamed(fa.X.Type(), hclwritePath, "Token") {
-				continue
-			}
-			fv := fieldVarOf(fa.X.Type(), fa.Field)
-			if fv == nil || fv.Name() != "Bytes" {
-				continue
-			}
-			conv, ok := st.Val.(*ssa.Convert)
-			if !ok {
-				continue
-			}
-			if _, isConst := conv.X.(*ssa.Const); isConst {
-				continue // `null`, `true`, `false`
-			}
-			// is this token an Ident?
-			isIdent := false
-			for _, r := range *fa.X.Referrers() {
-				if fa2, ok := r.(*ssa.FieldAddr); ok {
-					if f2 := fieldVarOf(fa2.X.Type(), fa2.Field); f2 != nil && f2.Name() == "Type" {
-						for _, r2 := range *fa2.Referrers() {
-							if st2, ok := r2.(*ssa.Store); ok {
-								if cv, ok := st2.Val.(*ssa.Const); ok && cv.Value != nil && cv.Int64() == int64('I') {
-									isIdent = true
+		}
+	}
+	outer := fn
+	for _, fn := range scan {
+		for _, b := range fn.Blocks {
+			for _, ins := range b.Instrs {
+				st, ok := ins.(*ssa.Store)
+				if !ok {
+					continue
+				}
+				fa, ok := st.Addr.(*ssa.FieldAddr)
+				if !ok || !isNamed(fa.X.Type(), hclwritePath, "Token") {
+					continue
+				}
+				fv := fieldVarOf(fa.X.Type(), fa.Field)
+				if fv == nil || fv.Name() != "Bytes" {
+					continue
+				}
+				conv, ok := st.Val.(*ssa.Convert)
+				if !ok {
+					continue
+				}
+				if _, isConst := conv.X.(*ssa.Const); isConst {
+					continue // `null`, `true`, `false`
+				}
+				// is this token an Ident?
+				isIdent := false
+				for _, r := range *fa.X.Referrers() {
+					if fa2, ok := r.(*ssa.FieldAddr); ok {
+						if f2 := fieldVarOf(fa2.X.Type(), fa2.Field); f2 != nil && f2.Name() == "Type" {
+							for _, r2 := range *fa2.Referrers() {
+								if st2, ok := r2.(*ssa.Store); ok {
+									if cv, ok := st2.Val.(*ssa.Const); ok && cv.Value != nil && cv.Int64() == int64('I') {
+										isIdent = true
+									}
 								}
 							}
 						}
 					}
 				}
-			}
-			if !isIdent {
-				continue
-			}
-			n++
-			// the emission is reached only when ValidIdentifier holds and the key is none of the
-			// parser's keywords: decided by evaluating the branch conditions (through helpers) under
-			// every assignment of those atoms (E-condeval)
-			atoms := &condAtoms{pred: vi, strEq: map[string]string{}}
-			for _, kw := range keywords {
-				atoms.strEq[kw] = "K:" + kw
-			}
-			names := []string{"P"}
-			for _, kw := range keywords {
-				names = append(names, "K:"+kw)
-			}
-			validNeeded, kwReach := true, map[string]bool{}
-			for mask := 0; mask < 1<<len(names); mask++ {
-				atoms.assign = map[string]bool{}
-				for i, nm := range names {
-					atoms.assign[nm] = mask&(1<<i) != 0
-				}
-				if !atoms.run(fn, 0).reach[b] {
+				if !isIdent {
 					continue
 				}
-				if !atoms.assign["P"] {
-					validNeeded = false
-				}
+				n++
+				// the emission is reached only when ValidIdentifier holds and the key is none of the
+				// parser's keywords: decided by evaluating the branch conditions (through helpers) under
+				// every assignment of those atoms (E-condeval)
+				atoms := &condAtoms{pred: vi, strEq: map[string]string{}}
 				for _, kw := range keywords {
-					if atoms.assign["K:"+kw] {
-						kwReach[kw] = true
+					atoms.strEq[kw] = "K:" + kw
+				}
+				names := []string{"P"}
+				for _, kw := range keywords {
+					names = append(names, "K:"+kw)
+				}
+				validNeeded, kwReach := true, map[string]bool{}
+				for mask := 0; mask < 1<<len(names); mask++ {
+					atoms.assign = map[string]bool{}
+					for i, nm := range names {
+						atoms.assign[nm] = mask&(1<<i) != 0
+					}
+					if !atoms.run(fn, 0).reach[b] {
+						continue
+					}
+					if !atoms.assign["P"] {
+						validNeeded = false
+					}
+					for _, kw := range keywords {
+						if atoms.assign["K:"+kw] {
+							kwReach[kw] = true
+						}
 					}
 				}
-			}
-			c.Check(validNeeded, "barekey", FuncName(fn)+":bare-ident.valid", st.Pos(), "only under ValidIdentifier",
-				"a map/object key is emitted as a bare identifier on a path on which hclsyntax.ValidIdentifier has not accepted it: keys that are not identifiers for the parser (leading digit, dash, …) are emitted bare and read back as something else")
-			for _, kw := range keywords {
-				c.Check(!kwReach[kw], "barekey", FuncName(fn)+":bare-ident.keyword["+kw+"]", st.Pos(), "keyword excluded",
-					"the identifier `"+kw+"` is emitted as a bare key, but the parser reads `{ "+kw+" …` as the start of a "+kw+" expression: the generated object constructor does not parse")
+				c.Check(validNeeded, "barekey", FuncName(fn)+":bare-ident.valid", st.Pos(), "only under ValidIdentifier",
+					"a map/object key is emitted as a bare identifier on a path on which hclsyntax.ValidIdentifier has not accepted it: keys that are not identifiers for the parser (leading digit, dash, …) are emitted bare and read back as something else")
+				for _, kw := range keywords {
+					c.Check(!kwReach[kw], "barekey", FuncName(fn)+":bare-ident.keyword["+kw+"]", st.Pos(), "keyword excluded",
+						"the identifier `"+kw+"` is emitted as a bare key, but the parser reads `{ "+kw+" …` as the start of a "+kw+" expression: the generated object constructor does not parse")
+				}
 			}
 		}
 	}
+	_ = outer
 	c.Floor("barekey emissions", n, 1, "object/map key in appendTokensForValue")
 }
 
